@@ -822,6 +822,18 @@ Proof.
   intros. split; [apply on_composition_2|]. split; [apply fanout_2|]. split; [apply parallel_2 | apply on_fanout_const_2].
 Qed.
 
+(* ------------------------------------------------------------ operator section with both operands missing *)
+Definition form_chain_sect_both (f : func) (args : list val) : expr :=      (* (_ f _)(args) *)
+  ECall (EChain None (Fv f) None) (norm args).
+
+(* (_ f _)(a, b) = f(a, b): the holes are filled left to right; any other argument count is an error *)
+Lemma chain_section_both : forall n f a b c,
+  eval (S n) (form_chain_sect_both f [a; b]) = run n f [a; b] /\
+  eval (S n) (form_chain_sect_both f [a]) = Err EArg /\
+  eval (S n) (form_chain_sect_both f []) = Err EArg /\
+  eval (S n) (form_chain_sect_both f [a; b; c]) = Err EArg.
+Proof. intros. repeat split; reflexivity. Qed.
+
 (* ------------------------------------------------------------ packaged statements for Props/C04.v *)
 Lemma entry_points_agree : forall n f a b,
   run1 n f a = run n f [a] /\ run2 n f a b = run n f [a; b].
